@@ -74,7 +74,11 @@ def run_stamp(case):
             classes.add("idle period resets virtual time")
     else:
         stamps = vc_stamps(run, case)
-    tol = 0 if exact else TOL
+    # the implementation computes stamps in floating point; only with dyadic weights/vticks in the exact domain do its stamps
+    # equal the reference's Fractions bit for bit - otherwise stamps closer than 1e-9 (relative) are treated as ties
+    nice = (1, 2, 4, 0.5, 0.25, 0.125, 0.0625)
+    dyadic = bool(exact) and all(v in nice for _, v in case["table"])
+    tol = 0 if dyadic else TOL
     disagree = 0
     for it in tl:
         s_served = stamps[id(it["in"].pkt)]
@@ -87,7 +91,7 @@ def run_stamp(case):
                                 f"t={r.now}) has a smaller stamp", "C14.stamp_order/" + case["kind"])
             if s_w == s_served:
                 classes.add("equal stamps")
-                if F(r.now) < F(it["in"].now):
+                if dyadic and F(r.now) < F(it["in"].now):
                     raise Violation("C14.tie_earlier_first", f"equal stamps: packet {it['in'].snap[0]} (arrived {it['in'].now}) served "
                                                              f"before packet {r.snap[0]} (arrived {r.now})", "C14.tie_earlier_first/" + case["kind"])
             if r.seq < it["in"].seq and s_w > s_served:
